@@ -30,7 +30,8 @@ SHAPES = {1: [(3,), (1,)], 2: [(2, 3), (1, 2)], 3: [(2, 1, 3), (2, 2, 2)]}
 
 
 def bounds(tier):
-    return {"sequence_length": 2 if tier == "quick" else 3, "menu": len(MENU), "shapes": {str(k): v for k, v in SHAPES.items()}}
+    return {"sequence_length": 2 if tier == "quick" else 3, "menu": len(MENU), "shapes": {str(k): v for k, v in SHAPES.items()},
+            "input_edits_between_calls": "see EDITS in fvmc/checks/c15.py (11)", "other_mesh_first": "other spacing / length unit 2^-30 / (N,L) form / other classes of the same dimension"}
 
 
 # ------------------------------------------------------------------ world
